@@ -31,6 +31,7 @@ Environment (all optional):
                     {"log": path,                      # JSON lines of adapter calls
                      "submit":  {instance: [bool...]}, # outcomes of successive submits (default true)
                      "reports": {instance: [state|null...]},  # successive check_jobs answers, last repeats
+                     "submit_by_prefix" / "reports_by_prefix": {step template: [...]}  # for every instance of it
                      "default": "FINISHED",
                      "qcodes":  ["OK", ...]}           # per check_jobs call, last repeats (default OK)
                   The log also receives {"call": "poll", "k": k} at every POLL sleep and, per write_script
@@ -105,6 +106,18 @@ def _register_scripted(path):
         if log:
             _append(log, json.dumps(obj))
 
+    def lookup(table, inst):
+        """exact instance name, else the longest step-template name T with inst == T or inst = T_<combo>"""
+        t = cfg.get(table, {})
+        if inst in t:
+            return t[inst]
+        best = None
+        for k, v in cfg.get(table + "_by_prefix", {}).items():
+            if inst == k or (inst or "").startswith(k + "_"):
+                if best is None or len(k) > len(best[0]):
+                    best = (k, v)
+        return best[1] if best else None
+
     class Scripted(object):
         key = "scripted"
 
@@ -133,7 +146,7 @@ def _register_scripted(path):
         def submit(self, step, path, cwd, job_map=None, env=None):
             n = st["nsub"].get(step.name, 0)
             st["nsub"][step.name] = n + 1
-            outs = cfg.get("submit", {}).get(step.name, [])
+            outs = lookup("submit", step.name) or []
             ok = outs[n] if n < len(outs) else True
             if ok:
                 j = st["next"]
@@ -151,7 +164,7 @@ def _register_scripted(path):
             out = {}
             for j in joblist:
                 inst = st["job_inst"].get(str(j))
-                seq = cfg.get("reports", {}).get(inst)
+                seq = lookup("reports", inst)
                 k = st["nrep"].get(inst, 0)
                 st["nrep"][inst] = k + 1
                 if seq:
